@@ -465,6 +465,26 @@ func judgeC09(t *testing.T, sc c09Scenario) verdict {
 	if out.Stopped {
 		// handed back: original mode (not manual) or full speed
 		ok := (sc.Fan == "hwmon" && out.FinalMode == 2) || out.FinalPwm == 255
+		// the cycle in which regulation ended is the last one that still evaluated the curve; if the
+		// driver accepted no PWM write in that cycle (and the mode could not be restored either),
+		// no implementation could have handed the fan back - nothing is demanded then (as in C03)
+		stopCycle := 0
+		for i, e := range out.Evals {
+			if e > 0 {
+				stopCycle = i + 1
+			}
+		}
+		activeAt := func(comp string) bool {
+			for _, f := range sc.Faults {
+				if f.Comp == comp && stopCycle >= f.From && (f.Len == 0 || stopCycle < f.From+f.Len) {
+					return true
+				}
+			}
+			return false
+		}
+		if activeAt("pwmWrite") && (sc.Fan != "hwmon" || activeAt("modeWrite")) {
+			pwmWriteForever = true
+		}
 		if !ok && !pwmWriteForever {
 			vs = append(vs, sim.Violation{Key: "stopped-without-restoring", Msg: fmt.Sprintf("%+v: regulation stopped (evaluations per cycle %v) with the fan in mode %d at PWM %d", sc.Faults, out.Evals, out.FinalMode, out.FinalPwm)})
 		}
